@@ -59,6 +59,18 @@ type Req struct {
 	// Blocked: the question is for a name the global custom rule blocks.
 	Blocked bool   `json:"blocked,omitempty"`
 	Fault   string `json:"fault,omitempty"`
+	// Q is the kind of question: "" an A question for a name of its own;
+	// "aaaa" / "any" the same name with that type; "canary" / "canary6" the
+	// browsers' canary domain (A / AAAA); "health" the server's healthcheck
+	// name; "ddr" the resolver-discovery name (SVCB); "ptr_private" a reverse
+	// question for a private address (the clients are all public).  Depending
+	// on the server's settings some of these are answered by the server itself.
+	Q string `json:"q,omitempty"`
+}
+
+// fixedName says whether questions of kind q all carry the same name.
+func fixedName(q string) bool {
+	return q == "canary" || q == "canary6" || q == "health" || q == "ddr"
 }
 
 // Op is one generated operation.
@@ -76,6 +88,12 @@ type Op struct {
 type Scenario struct {
 	ServerName string `json:"server_name"`
 	Strict     bool   `json:"strict"`
+	// AAAAOff, RefuseAny, DDR are the DNS server's settings "disable
+	// resolving of IPv6 addresses", "refuse ANY requests" and "handle
+	// resolver-discovery requests".
+	AAAAOff   bool `json:"aaaa_off,omitempty"`
+	RefuseAny bool `json:"refuse_any,omitempty"`
+	DDR       bool `json:"ddr,omitempty"`
 	// FilterOff lists the ClientIDs of persistent clients whose own settings
 	// turn filtering off.
 	FilterOff []string `json:"filter_off"`
@@ -90,20 +108,68 @@ var (
 	long64 = strings.Repeat("a", 63) + "z"
 	long70 = strings.Repeat("b", 70)
 
-	serverNames = []string{"example.org", "example.org", "example.org", "dns.example.org", "Example.ORG", ""}
-	validIDs    = []string{"alice", "alice", "bob", "bob", "a", "x1", "a-b", "0", "ALICE", "Bob", "aLiCe", "xn--e1a", long63}
+	serverNames = []string{"example.org", "example.org", "example.org", "dns.example.org", "disk.example.org", "Example.ORG", ""}
+	validIDs    = []string{"alice", "alice", "bob", "bob", "kate", "sis", "a", "x1", "a-b", "0", "ALICE", "Bob", "aLiCe", "Kate", "xn--e1a", long63}
 	invalidIDs  = []string{long64, long70, "-abc", "abc-", "-", "a_b", "_", "a b", "a!b", "é", "alíce", "a%b", "a\x00b", "a*", "a:b", "a/b", "a\tb", "alice ", "a?b", "a#b", "a\\b", "..."}
-	persistent  = []string{"alice", "bob", long63, "a"}
+	persistent  = []string{"alice", "bob", long63, "a", "kate"}
 	protos      = []string{"udp", "tcp", "dnscrypt", "tls", "tls", "quic", "quic", "https", "https", "https"}
 	sources     = []string{"198.51.100.7:40001", "198.51.100.8:40002", "[2001:db8:1::9]:40003", "203.0.113.200:40004"}
 	burstSizes  = []int{2, 2, 3, 3, 4, 5, 8, 8, 13, 16, 24, 33, 48, 64}
 )
 
 func genLabel(t *rapid.T, tag string) string {
-	if rapid.IntRange(0, 9).Draw(t, tag+"_valid") < 6 {
+	switch k := rapid.IntRange(0, 10).Draw(t, tag+"_valid"); {
+	case k < 6:
 		return rapid.SampledFrom(validIDs).Draw(t, tag)
+	case k == 10:
+		// A valid identifier in which one letter is replaced by a non-ASCII
+		// relative of it.
+		return lookalike(rapid.SampledFrom(validIDs).Draw(t, tag), rapid.IntRange(0, 3).Draw(t, tag+"_fold"))
 	}
 	return rapid.SampledFrom(invalidIDs).Draw(t, tag)
+}
+
+// lookalike replaces one ASCII letter of s by a non-ASCII character that
+// Unicode relates to an ASCII letter: mode 0 K -> U+212A KELVIN SIGN (lower
+// case "k"), mode 1 s -> U+017F LONG S (upper case "S", folds to "s"), mode 2
+// i -> U+0131 DOTLESS I (upper case "I") / I -> U+0130 (lower case "i" +
+// U+0307), mode 3 (and whenever s has no such letter) the first letter -> its
+// full-width form (no case relation to ASCII, but NFKC-equivalent).
+func lookalike(s string, mode int) string {
+	sub := func(set string, with func(ch byte) string) (string, bool) {
+		if i := strings.IndexAny(s, set); i >= 0 {
+			return s[:i] + with(s[i]) + s[i+1:], true
+		}
+		return s, false
+	}
+	var out string
+	var ok bool
+	switch mode {
+	case 0:
+		out, ok = sub("kK", func(byte) string { return "\u212a" })
+	case 1:
+		out, ok = sub("sS", func(byte) string { return "\u017f" })
+	case 2:
+		out, ok = sub("iI", func(ch byte) string {
+			if ch == 'I' {
+				return "\u0130"
+			}
+			return "\u0131"
+		})
+	}
+	if ok {
+		return out
+	}
+	out, ok = sub("abcdefghijklmnopqrstuvwxyzABCDEFGHIJKLMNOPQRSTUVWXYZ", func(ch byte) string {
+		if ch >= 'a' {
+			return string(rune(0xff41 + int(ch-'a')))
+		}
+		return string(rune(0xff21 + int(ch-'A')))
+	})
+	if ok {
+		return out
+	}
+	return s + "\u212a"
 }
 
 // flipCase changes the letter case of every second letter.
@@ -170,15 +236,21 @@ func genName(t *rapid.T, conf string, tag string) string {
 	case 21:
 		name = "192.0.2.1"
 	}
-	switch rapid.IntRange(0, 11).Draw(t, tag+"_case") {
+	switch rapid.IntRange(0, 12).Draw(t, tag+"_case") {
 	case 0:
-		name = strings.ToUpper(name)
+		name = asciiUpper(name)
 	case 1:
 		name = flipCase(name)
 	case 2:
 		// Only the configured part changes case.
 		if strings.HasSuffix(name, base) {
 			name = name[:len(name)-len(base)] + flipCase(base)
+		}
+	case 3:
+		// The configured part is spelled with a non-ASCII relative of one of
+		// its letters: a different name.
+		if strings.HasSuffix(name, base) {
+			name = name[:len(name)-len(base)] + lookalike(base, rapid.IntRange(0, 3).Draw(t, tag+"_fold_base"))
 		}
 	}
 	return name
@@ -317,6 +389,22 @@ func genReq(t *rapid.T, conf string) Req {
 		r.Fault = string(env.UpServfail)
 	case 2, 3, 4:
 		r.Fault = string(env.UpSlow)
+	}
+	switch rapid.IntRange(0, 19).Draw(t, "q_kind") {
+	case 0, 1:
+		r.Q = "aaaa"
+	case 2:
+		r.Q = "any"
+	case 3:
+		r.Q = "canary"
+	case 4:
+		r.Q = "canary6"
+	case 5:
+		r.Q = "health"
+	case 6:
+		r.Q = "ddr"
+	case 7:
+		r.Q = "ptr_private"
 	}
 	switch r.Proto {
 	case "tls", "quic":
@@ -472,6 +560,16 @@ func validLabel(s string) bool {
 		}
 	}
 	return true
+}
+
+func asciiUpper(s string) string {
+	b := []byte(s)
+	for i, ch := range b {
+		if ch >= 'a' && ch <= 'z' {
+			b[i] = ch - 32
+		}
+	}
+	return string(b)
 }
 
 func asciiLower(s string) string {
